@@ -64,6 +64,9 @@ def run(ctx):
     tabs = g711.parse_tables(lines)
     changed = ctx.set_generated("G711Tables.lean", g711.lean_tables(tabs))
     ctx.notes["generated_tables_changed"] = changed
+    from .. import g72x as _g72x, codectab as _codectab   # G.72x / NMS / GSM tables by execution -> Generated/*.lean (before the Lean stage)
+    _g72x.pregen(ctx)
+    _codectab.pregen(ctx)
     ctx.lean_modules = modules_for("C20")
     failed = ctx.lean_stage(ctx.lean_modules)
 
@@ -146,6 +149,9 @@ def run(ctx):
                               "# C20: %s encode(decode(0x%02x)) = 0x%02x on the implementation's own tables (expected 0x%02x)\n"
                               "--- script\n%s" % (law, c, code, want, dec_script(fmt, "s16", "%02x" % c, 1)))
 
+    from .. import codecs20      # G.721 / G.723 / NMS / GSM 06.10 kernels against the models with the published tables (vlib/codecs20.py)
+    if codecs20.run(ctx, failed):
+        found_input = True
     if failed and not found_input:
         ctx.violation("lean-stage", "theorem(s) no longer check: %s\nno failing input found by the exhaustive G.711 streams\n%s"
                       % (", ".join(failed), ctx.notes.get("lean_log_tail", "")), no_input=True)
